@@ -58,6 +58,9 @@ static int       vn_tx_taken = 0;
 /* scripted failures */
 static int       vn_fail_next_send    = 0; /* errno to fail the next asendto with, 0 = none */
 static int       vn_fail_next_connect = 0;
+/* aconnect to this IPv4 address (host order, 0 = none) fails with ENETUNREACH; vn_fail_connect_fired counts */
+static unsigned int vn_fail_connect_peer4 = 0;
+static int          vn_fail_connect_fired = 0;
 static long      vn_opened = 0, vn_closed = 0;
 /* optional observer of every transmission, called at the moment of the send */
 static void (*vn_on_tx)(int sock, const unsigned char *data, size_t len) = NULL;
@@ -70,6 +73,8 @@ static void vn_reset(void)
   vn_tx_taken          = 0;
   vn_fail_next_send    = 0;
   vn_fail_next_connect = 0;
+  vn_fail_connect_peer4 = 0;
+  vn_fail_connect_fired = 0;
   vn_opened = vn_closed = 0;
 }
 
@@ -130,6 +135,12 @@ static int vn_aconnect(ares_socket_t s, const struct sockaddr *addr, ares_sockle
   if (vn_fail_next_connect) {
     errno                = vn_fail_next_connect;
     vn_fail_next_connect = 0;
+    return -1;
+  }
+  if (vn_fail_connect_peer4 != 0 && addr->sa_family == AF_INET &&
+      ntohl(((const struct sockaddr_in *)addr)->sin_addr.s_addr) == vn_fail_connect_peer4) {
+    vn_fail_connect_fired++;
+    errno = ENETUNREACH;
     return -1;
   }
   memcpy(&vn_socks[i].peer, addr, len);
